@@ -77,8 +77,10 @@ package drpcsignal
 //@   ensures [seen] result != nil ==> sigES(s.status) && result == s.err
 //@   ensures [set]  sigES(s.status) ==> result == s.err
 
+// Wait blocks on the signal's channel (the one Signal() returns), which is closed by the winning Set.
 //@ func (*Signal).Wait
-//@   props C19
+//@   props C19 C12
+//@   check [C19.waits-on-the-channel] eventCount("recv") == 1 && eventCount("call:(*Signal).Signal") == 1
 
 // Chan: mu protects done and ch; done is published with an atomic store (deferred, so that it
 // happens after the initialiser ran). The closed state of the channel is NOT owned by the monitor:
